@@ -19,7 +19,14 @@ func NewPlainView(p string) (*PlainView, error) {
 	return &PlainView{Path: p, Sz: st.Size(), K: "plain"}, nil
 }
 
-func (v *PlainView) Size() int64     { return v.Sz }
+// Size is the current size of the object: a file that is truncated or grows while it is open
+// (by the same session's uploads) presents its current bytes.
+func (v *PlainView) Size() int64 {
+	if st, err := os.Stat(v.Path); err == nil {
+		return st.Size()
+	}
+	return v.Sz
+}
 func (v *PlainView) Kind() string    { return v.K }
 func (v *PlainView) MtimeFree() bool { return false }
 func (v *PlainView) ReadAt(p []byte, off int64) error {
